@@ -154,3 +154,72 @@ Definition spec_run2 (wf : workflow) : option (list val) :=
 (* the class of C03_partial2 *)
 Definition c03_class2 (wf : workflow) : bool :=
   c03_aligned (normalize wf) && zip_len_ok wf && zipcomb_class (normalize wf) && comb_closed_class wf.
+
+(* ---------- third pass: explicit pairing ("_A", "_B") of two upstream states with one open axis each ----------
+   The two axes are aligned by position: the pair node has ONE axis for them (named by A's axis ka); an input
+   bound to B reads B's output at the coordinate kb := rho(ka).  Unequal lengths are rejected. *)
+Definition first_ups (tab : list sentry) (fields : list binding) : option (nat * nat) :=
+  match ups tab fields with [a; b] => Some (a, b) | _ => None end.
+Fixpoint sem_args_pair (tab : list sentry) (n : nat) (nd : node) (xb : nat) (ka kb : key) (f : nat) (fields : list binding) (rho : row) : list val :=
+  match fields with
+  | [] => []
+  | b :: r =>
+      (match b with
+       | BConst z => VInt z
+       | BSplit vs => VInt (nth (match lookup rho (n, leader_of nd f) with Some i => i | None => 0 end) vs 0%Z)
+       | BUp j => outsel (osel_of nd f)
+                    (s_out_of tab j (if Nat.eqb j xb then (kb, match lookup rho ka with Some i => i | None => 0 end) :: rho else rho))
+       end) :: sem_args_pair tab n nd xb ka kb (S f) r rho
+  end.
+Definition spec_entry_pair (wf : workflow) (tab : list sentry) (n : nat) (nd : node) : sentry :=
+  match first_ups tab (n_fields nd) with
+  | Some (xa, xb) =>
+      match s_faxes_of tab xa, s_faxes_of tab xb with
+      | [ka], [kb] =>
+          let axes := ka :: map (fun f => (n, f)) (n_split nd) in
+          let sem := fun rho => VTag n (sem_args_pair tab n nd xb ka kb 0 (n_fields nd) rho) in
+          {| s_axes := axes; s_faxes := axes; s_sem := sem; s_out := sem |}
+      | _, _ => spec_entry wf tab n nd
+      end
+  | None => spec_entry wf tab n nd
+  end.
+Fixpoint spec_from3 (wf : workflow) (tab : list sentry) (nodes : workflow3) : list sentry :=
+  match nodes with
+  | [] => tab
+  | (nd, pr) :: r =>
+      spec_from3 wf (tab ++ [if pr then spec_entry_pair wf tab (List.length tab) nd else spec_entry wf tab (List.length tab) nd]) r
+  end.
+(* the pairing is well-formed for the spec: two state-carrying inputs with one open axis each, of equal length,
+   no combiner on the pair node *)
+Definition pair_ok (wf : workflow) (tab : list sentry) (nd : node) : bool :=
+  match first_ups tab (n_fields nd) with
+  | Some (xa, xb) =>
+      match s_faxes_of tab xa, s_faxes_of tab xb with
+      | [ka], [kb] => is_nil (n_comb nd)
+      | _, _ => false
+      end
+  | None => false
+  end.
+Definition pair_len_ok (wf : workflow) (tab : list sentry) (nd : node) : bool :=
+  match first_ups tab (n_fields nd) with
+  | Some (xa, xb) =>
+      match s_faxes_of tab xa, s_faxes_of tab xb with
+      | [ka], [kb] => Nat.eqb (key_len wf ka) (key_len wf kb)
+      | _, _ => true
+      end
+  | None => true
+  end.
+Definition on_pairs (w3 : workflow3) (p : workflow -> list sentry -> node -> bool) : bool :=
+  let wf := normalize (map fst w3) in
+  let tab := spec_from3 wf [] (combine wf (map snd w3)) in
+  forallb (fun x => negb (snd x) || p wf tab (fst x)) (combine wf (map snd w3)).
+Definition has_pair (w3 : workflow3) : bool := existsb snd w3.
+Definition spec_run3 (w3 : workflow3) : option (list val) :=
+  let wf := normalize (map fst w3) in
+  if zip_len_ok wf && on_pairs w3 pair_len_ok
+  then Some (outs2 (map (spec_output wf) (spec_from3 wf [] (combine wf (map snd w3)))))
+  else None.
+(* pair nodes are supported (compared with model and spec) when they are well-formed and every later node that
+   combines anything removes the paired axis by naming both of its fields; no theorem covers them *)
+Definition pair_supported (w3 : workflow3) : bool := on_pairs w3 pair_ok.
+Definition c03_class3 (w3 : workflow3) : bool := negb (has_pair w3) && c03_class2 (map fst w3).
